@@ -1507,4 +1507,257 @@ def isFail {α} : Except Err α → Bool
   | .error .fail => true
   | _ => false
 
+/-! ### the fuel is irrelevant once it exceeds the nesting depth -/
+
+theorem perKeyW_congr (cfg : Cfg) (rec rec' : List KVs → Except Err KVs) (ws : List XVal)
+    (h : ∀ ms, ms ≠ [] → (∀ m ∈ ms, XVal.map m ∈ ws) → rec ms = rec' ms) :
+    perKeyW cfg rec ws = perKeyW cfg rec' ws := by
+  cases ws with
+  | nil => rfl
+  | cons w rest =>
+    cases w with
+    | nil => rfl
+    | sc ty v => rfl
+    | map kvs =>
+      simp only [perKeyW]
+      cases hp : rest.mapM asMap with
+      | error e => rfl
+      | ok ms =>
+        simp only [bind, Except.bind]
+        rw [h (kvs :: ms) (by simp)]
+        intro m hm
+        simp only [List.mem_cons] at hm
+        rcases hm with rfl | hm
+        · simp
+        · obtain ⟨x, hx, hfx⟩ := mapM_mem_ok _ _ _ hp m hm
+          have : x = .map m := by
+            unfold asMap at hfx; split at hfx <;> cases hfx; rfl
+          subst this
+          simp [hx]
+
+theorem perKey_congr (cfg : Cfg) (rec rec' : List KVs → Except Err KVs) (vs : List XVal)
+    (h : ∀ ms, ms ≠ [] → (∀ m ∈ ms, XVal.map m ∈ vs) → rec ms = rec' ms) :
+    perKey cfg rec vs = perKey cfg rec' vs := by
+  unfold perKey
+  apply perKeyW_congr
+  intro ms hne hms
+  apply h ms hne
+  intro m hm
+  have := hms m hm
+  unfold dropNil at this
+  split at this
+  · exact (List.mem_filter.1 this).1
+  · exact this
+
+theorem buildM_congr_eq (f f' : String → Except Err XVal) (ks : List String) (h : ∀ k ∈ ks, f k = f' k) :
+    buildM f ks = buildM f' ks := by
+  induction ks with
+  | nil => rfl
+  | cons k ks ih =>
+    rw [buildM_cons, buildM_cons, h k (by simp), ih (fun k' hk' => h k' (by simp [hk']))]
+
+theorem concatEvs_fuel_irrelevant (cfg : Cfg) (n m : Nat) (evs : KVs) (hn : depthKVs evs < n) (hm : depthKVs evs < m) :
+    concatEvs cfg n evs = concatEvs cfg m evs := by
+  induction n generalizing m evs with
+  | zero => omega
+  | succ n ih =>
+    cases m with
+    | zero => omega
+    | succ m =>
+      rw [concatEvs_succ, concatEvs_succ]
+      apply buildM_congr_eq
+      intro k _
+      apply perKey_congr
+      intro ms hne hms
+      have hb : ∀ x ∈ ms, depthKVs x + 1 ≤ depthKVs evs := by
+        intro x hx
+        have h1 := depth_mem evs k _ (mem_vals evs k _ (hms x hx))
+        rw [depth_map] at h1
+        omega
+      have hpos : 0 < depthKVs evs := by
+        cases ms with
+        | nil => exact absurd rfl hne
+        | cons x _ => have := hb x (by simp); omega
+      have hfl := depthKVs_flatten ms (depthKVs evs - 1) (fun x hx => by have := hb x hx; omega)
+      exact ih m ms.flatten (by omega) (by omega)
+
+theorem concatMsgs_fuel_irrelevant (cfg : Cfg) (n m : Nat) (ms : List Msg) (hn : extrasDepth ms < n) (hm : extrasDepth ms < m) :
+    concatMsgs cfg n ms = concatMsgs cfg m ms := by
+  rw [concatMsgs_eq, concatMsgs_eq, concatEvs_fuel_irrelevant cfg n m _ hn hm]
+
+/-! ### message arrays -/
+
+theorem concatCol_rechunk (cfg : Cfg) (n : Nat) (a b : List (Option Msg)) :
+    EqvE (concatCol cfg n a >>= fun r => concatCol cfg n (r :: b)) (concatCol cfg n (a ++ b)) := by
+  unfold concatCol
+  simp only [List.filterMap_append, List.filterMap_cons]
+  generalize a.filterMap id = fa
+  generalize b.filterMap id = fb
+  cases fa with
+  | nil => simp [bind, Except.bind]; exact EqvE.rfl' _
+  | cons x t =>
+    cases t with
+    | nil => simp [bind, Except.bind]; exact EqvE.rfl' _
+    | cons y t' =>
+      have law := concatMsgs_rechunk cfg n (x :: y :: t') fb
+      simp only [List.cons_append] at law ⊢
+      cases hc : concatMsgs cfg n (x :: y :: t') with
+      | error e =>
+        rw [hc] at law
+        obtain ⟨e', he⟩ := EqvE.error_left law
+        simp [Except.map, bind, Except.bind, he, EqvE]
+      | ok r =>
+        rw [hc] at law
+        simp only [bind, Except.bind] at law
+        simp only [Except.map, bind, Except.bind, id]
+        cases fb with
+        | nil =>
+          simp only [List.append_nil] at law ⊢
+          rw [hc]; simp [EqvE]
+        | cons z t'' =>
+          simp only at law ⊢
+          cases h1 : concatMsgs cfg n (r :: z :: t'') <;> cases h2 : concatMsgs cfg n (x :: y :: (t' ++ z :: t'')) <;>
+            simp_all [EqvE]
+
+theorem mapM_ok_get {α β} (f : α → Except Err β) (l : List α) (r : List β) (h : l.mapM f = .ok r) :
+    r.length = l.length ∧ ∀ i (hi : i < l.length) (hr : i < r.length), f l[i] = .ok r[i] := by
+  induction l generalizing r with
+  | nil => simp [pure, Except.pure] at h; subst h; simp
+  | cons a l ih =>
+    rw [List.mapM_cons] at h
+    cases ha : f a <;> simp [ha, bind, Except.bind] at h
+    cases hl : l.mapM f <;> simp [hl, pure, Except.pure] at h
+    subst h
+    obtain ⟨h1, h2⟩ := ih _ hl
+    refine ⟨by simp [h1], ?_⟩
+    intro i hi hr
+    cases i with
+    | zero => simpa using ha
+    | succ j => simpa using h2 j (by simpa using hi) (by simpa using hr)
+
+theorem mapM_congr_eqv {α β} (f g : α → Except Err β) (l : List α) (h : ∀ x ∈ l, EqvE (f x) (g x)) :
+    EqvE (l.mapM f) (l.mapM g) := by
+  induction l with
+  | nil => simp [pure, Except.pure, EqvE]
+  | cons a l ih =>
+    rw [List.mapM_cons, List.mapM_cons]
+    have ha := h a (by simp)
+    have ih' := ih (fun x hx => h x (by simp [hx]))
+    cases hf : f a <;> cases hg : g a <;> simp [hf, hg, EqvE] at ha
+    · simp [bind, Except.bind, EqvE]
+    · subst ha
+      cases h1 : l.mapM f <;> cases h2 : l.mapM g <;> simp [h1, h2, EqvE] at ih'
+      · simp [bind, Except.bind, EqvE]
+      · subst ih'; simp [bind, Except.bind, pure, Except.pure, EqvE]
+
+theorem mapM_error_of_mem {α β} (f : α → Except Err β) (l : List α) (x : α) (hx : x ∈ l) (e : Err)
+    (h : f x = .error e) : ∃ e', l.mapM f = .error e' := by
+  induction l with
+  | nil => cases hx
+  | cons a l ih =>
+    rw [List.mapM_cons]
+    cases hf : f a with
+    | error e' => exact ⟨e', rfl⟩
+    | ok v =>
+      simp only [List.mem_cons] at hx
+      rcases hx with rfl | hx
+      · rw [hf] at h; cases h
+      · obtain ⟨e', he⟩ := ih hx
+        exact ⟨e', by simp [bind, Except.bind, he]⟩
+
+theorem concatArr_rechunk (cfg : Cfg) (n : Nat) (xs ys : List (List (Option Msg))) (hxs : xs ≠ []) :
+    EqvE (concatArr cfg n xs >>= fun r => concatArr cfg n (r :: ys)) (concatArr cfg n (xs ++ ys)) := by
+  cases xs with
+  | nil => exact absurd rfl hxs
+  | cons a0 t =>
+    simp only [concatArr, List.cons_append]
+    by_cases hx : (a0 :: t).all (fun a => a.length == a0.length) = true
+    · rw [if_pos hx]
+      cases hm : (List.range a0.length).mapM (fun i => concatCol cfg n ((a0 :: t).map (fun a => a.getD i none))) with
+      | error e =>
+        obtain ⟨i, hi, he⟩ := mapM_error_mem _ _ _ hm
+        simp only [bind, Except.bind]
+        by_cases hy : (a0 :: (t ++ ys)).all (fun a => a.length == a0.length) = true
+        · rw [if_pos hy]
+          have law := concatCol_rechunk cfg n ((a0 :: t).map (fun a => a.getD i none)) (ys.map (fun a => a.getD i none))
+          rw [he] at law
+          obtain ⟨e', he'⟩ := EqvE.error_left law
+          obtain ⟨e'', he''⟩ := mapM_error_of_mem
+            (fun i => concatCol cfg n ((a0 :: (t ++ ys)).map (fun a => a.getD i none))) _ i hi e'
+            (by simpa using he')
+          rw [he'']; simp [EqvE]
+        · rw [if_neg hy]; simp [EqvE]
+      | ok r =>
+        obtain ⟨hlen, hget⟩ := mapM_ok_get _ _ _ hm
+        simp only [List.length_range] at hlen
+        simp only [bind, Except.bind]
+        have hall : (r :: ys).all (fun a => a.length == r.length) = (a0 :: (t ++ ys)).all (fun a => a.length == a0.length) := by
+          simp only [List.all_cons, List.all_append, hlen, beq_self_eq_true, Bool.true_and] at hx ⊢
+          rw [hx]; simp
+        rw [hall]
+        by_cases hy : (a0 :: (t ++ ys)).all (fun a => a.length == a0.length) = true
+        · rw [if_pos hy, if_pos hy, hlen]
+          apply mapM_congr_eqv
+          intro i hi
+          simp only [List.mem_range] at hi
+          have law := concatCol_rechunk cfg n ((a0 :: t).map (fun a => a.getD i none)) (ys.map (fun a => a.getD i none))
+          have hgi := hget i (by simpa using hi) (by omega)
+          simp only [List.getElem_range] at hgi
+          rw [hgi] at law
+          simp only [bind, Except.bind] at law
+          have hri : r[i]? = some (r[i]'(by omega)) := List.getElem?_eq_getElem (by omega)
+          simpa [hri] using law
+        · rw [if_neg hy, if_neg hy]; simp [EqvE]
+    · rw [if_neg hx]
+      have hy : ¬ ((a0 :: (t ++ ys)).all (fun a => a.length == a0.length) = true) := by
+        intro h; apply hx
+        simp only [List.all_cons, List.all_append, Bool.and_eq_true] at h ⊢
+        exact ⟨h.1, h.2.1⟩
+      rw [if_neg hy]; simp [bind, Except.bind, EqvE]
+
+theorem concatArrChunks_rechunk (cfg : Cfg) (n : Nat) (xs ys : List (List (Option Msg))) (hxs : xs ≠ []) :
+    EqvE (concatArrChunks cfg n xs >>= fun r => concatArrChunks cfg n (r :: ys)) (concatArrChunks cfg n (xs ++ ys)) :=
+  concatStream_rechunk (concatArr cfg n) (fun a b h => concatArr_rechunk cfg n a b h) xs ys hxs
+
+
+theorem concatMsgs_no_panic (cfg : Cfg) (hg : cfg.nilAbsent = true) (n : Nat) (ms : List Msg) :
+    concatMsgs cfg n ms ≠ .error .panic := by
+  intro he
+  rcases concatMsgs_err cfg n ms _ he with h1 | h2
+  · cases h1
+  · exact concatEvs_no_panic cfg hg n _ h2
+
+theorem concatCol_no_panic (cfg : Cfg) (hg : cfg.nilAbsent = true) (n : Nat) (col : List (Option Msg)) :
+    concatCol cfg n col ≠ .error .panic := by
+  unfold concatCol
+  generalize col.filterMap id = fm
+  split
+  · simp
+  · simp
+  · intro h
+    cases hc : concatMsgs cfg n fm with
+    | ok m => simp [hc, Except.map] at h
+    | error e =>
+      simp [hc, Except.map] at h
+      subst h
+      exact concatMsgs_no_panic cfg hg n fm hc
+
+/-- through `concatStreamReader` the array concatenation never panics: `mas[0]` is only
+    evaluated on ≥ 2 arrays -/
+theorem concatArrChunks_no_panic (cfg : Cfg) (hg : cfg.nilAbsent = true) (n : Nat)
+    (xs : List (List (Option Msg))) : concatArrChunks cfg n xs ≠ .error .panic := by
+  unfold concatArrChunks
+  cases xs with
+  | nil => simp [concatStream]
+  | cons a t =>
+    cases t with
+    | nil => simp [concatStream]
+    | cons b t' =>
+      simp only [concatStream, concatArr]
+      split
+      · intro h
+        obtain ⟨i, _, he⟩ := mapM_error_mem _ _ _ h
+        exact concatCol_no_panic cfg hg n _ he
+      · simp
+
 end EinoV.C14
